@@ -34,8 +34,8 @@ INVS = ["TypeOK", "BoundsExported", "RightBucket", "CountsSum", "SumOK", "CumOK"
 MC = {"MCBuckets.tla": "---- MODULE MCBuckets ----\nEXTENDS Buckets\nMCBounds == {-4, -3, -2, 0, 1, 2, 4}\n====\n"}
 
 
-def cfg(mindecl, maxdecl, maxobs, devs=(), emit=True, invs=INVS, props=True):
-    c = {"MinDecl": mindecl, "MaxDecl": maxdecl, "MaxObs": maxobs, "EmitCases": emit}
+def cfg(mindecl, maxdecl, maxobs, devs=(), emit=True, invs=INVS, props=True, reload=False):
+    c = {"MinDecl": mindecl, "MaxDecl": maxdecl, "MaxObs": maxobs, "EmitCases": emit, "WithReload": reload}
     for d in DEVS:
         c[d] = d in devs
     t = vlib.cfg_text(spec="Spec", constants=c, invariants=list(invs), properties=["OneBucketPerObservation"] if props else [])
@@ -43,7 +43,7 @@ def cfg(mindecl, maxdecl, maxobs, devs=(), emit=True, invs=INVS, props=True):
 
 
 def key(c):
-    return (tuple(c["decl"]), tuple(c["obs"]))
+    return (tuple(c["decl"]), tuple(c["obs"]), json.dumps(c.get("reload")))
 
 
 def nontrivial(c):
@@ -52,8 +52,8 @@ def nontrivial(c):
     return any(o in bs or o in (-1000, 1000, 9999) or (c["decl"][0] <= 0 and o <= c["decl"][0]) for o in c["obs"])
 
 
-def stage(ctx, binary, name, mindecl, maxdecl, maxobs, devs, seen, explained):
-    r = vlib.tlc(ctx, "MCBuckets", cfg(mindecl, maxdecl, maxobs), label="Buckets-" + name, timeout=2400, extra_files=MC)
+def stage(ctx, binary, name, mindecl, maxdecl, maxobs, devs, seen, explained, reload=False):
+    r = vlib.tlc(ctx, "MCBuckets", cfg(mindecl, maxdecl, maxobs, reload=reload), label="Buckets-" + name, timeout=2400, extra_files=MC)
     cases = r.cases
     if not cases:
         raise vlib.InfraError("TLC emitted no behaviours (%s)" % name)
@@ -86,7 +86,7 @@ def stage(ctx, binary, name, mindecl, maxdecl, maxobs, devs, seen, explained):
         def sink(c):
             if key(c) in want:
                 model_dev[key(c)] = c
-        vlib.tlc(ctx, "MCBuckets", cfg(mindecl, maxdecl, maxobs, devs=devs, invs=["Emit"], props=False), label="Buckets-%s-devs" % name,
+        vlib.tlc(ctx, "MCBuckets", cfg(mindecl, maxdecl, maxobs, devs=devs, invs=["Emit"], props=False, reload=reload), label="Buckets-%s-devs" % name,
                  timeout=2400, case_sink=sink, extra_files=MC)
     for c, y in bad2:
         d = model_dev.get(key(c))
@@ -123,6 +123,8 @@ def run(ctx):
             raise vlib.InfraError("actions never taken in Buckets.tla: %s" % covutil.final_zero_cov(r.stdout))
     else:
         stage(ctx, binary, "decl2-4-obs2", 2, 4, 2, devs, seen, explained)
+    # a reload with an edited boundary list between the observations: everything counted so far survives it
+    stage(ctx, binary, "reload-decl2-obs3" if ctx.thorough else "reload-decl2-obs2", 2, 2, 3 if ctx.thorough else 2, devs, seen, explained, reload=True)
     for d in devs:
         ex = explained.get(d)
         if not ex:
